@@ -349,6 +349,11 @@ def run_numjac(task):
         Config.config.update(defaults)
 
 
+def run_c08_seq(task):
+    """run_c08 on several inputs one after another in this interpreter"""
+    return {"outcome": "Ok", "results": [run_c08(sub) for sub in task["subs"]]}
+
+
 def run_c01_seq(task):
     """run_c01 on several inputs one after another in this interpreter"""
     return {"outcome": "Ok", "results": [run_c01(sub) for sub in task["subs"]]}
